@@ -35,3 +35,4 @@ def enforce(props, src, fn, entry=None, replace=(), **kw):
                enforce=[fn], replace=list(replace), functions=[fn] + kw.pop("functions", []), **kw)
 
 import jobs_c12  # noqa: E402,F401
+import jobs_c03  # noqa: E402,F401
